@@ -66,16 +66,19 @@ theorem dpop_total (up : Dpop.UrlParse) (i : Dpop.ParseIn) (tpEq : Bool) (method
 theorem dpop_parse_ok_claims_are_strings (i : Dpop.ParseIn) (t : Dpop.Token) (h : Dpop.parse Dpop.Cfg.fixed i = .ok t) :
     (∃ s, t.htu = some (.str s) ∧ s ≠ "") ∧ (∃ s, t.htm = some (.str s) ∧ s ≠ "") := by
   unfold Dpop.parse at h
-  repeat' split at h
-  all_goals first | (cases h; done) | skip
-  all_goals simp_all
-  all_goals
-    obtain ⟨rfl, rfl⟩ := h
-    exact ⟨claimCheck_ok_str _ _ ‹_›, claimCheck_ok_str _ _ ‹_›⟩
+  split at h
+  · simp at h
+  · simp at h
+  · unfold Dpop.parseClaims at h
+    repeat' split at h
+    all_goals first | (cases h; done) | skip
+    all_goals
+      cases h
+      exact ⟨claimCheck_ok_str _ _ ‹_›, claimCheck_ok_str _ _ ‹_›⟩
 
 /-- non-vacuity: a valid proof is accepted and matches; the three witnesses of the unrepaired source are now errors -/
 def goodIn : Dpop.ParseIn :=
-  { jwsOk := true, nSigs := 1, algSupported := true, typ := "dpop+jwt", hasJwk := true, jwkPrivate := false, jwtOk := true,
+  { jwsOk := true, nSigs := 1, algSupported := true, typ := "dpop+jwt", hasJwk := true, jwkPrivate := false, algFitsKey := true, jwtOk := true,
     iatZero := false, htu := some (.str "https://a/t"), htm := some (.str "POST"), jtiLen := 5 }
 def upOk : Dpop.UrlParse := fun s => if s == "://x" then none else some s
 
